@@ -1359,7 +1359,7 @@ func TestVerifKF_C19_arrow_decimal_overflow(t *testing.T) {
 func TestVerifKF_C19_arrow_header_race(t *testing.T) {
 	e := c19NewEnv(t)
 	bad, what := 0, ""
-	n := verifkit.Scale(1500, 6000)
+	n := verifkit.Scale(4000, 12000)
 	for a := 0; a < n; a++ {
 		r, err := e.post("/api/v1/query/arrow", "SELECT 1 AS x", nil)
 		if err != nil {
